@@ -363,18 +363,42 @@ def r3_selection(repo, rep):
     return
   nn, rn = narrow[0], resets[0]
   dom = g.dominators(cfgmod.no_exc)
-  rep.check(nn in dom[rn], 'R3/selection', 'positional labels are taken after narrowing to the subset', f.qualname, norm(rn.ast),
+  rd_sel = dataflow.Reaching(g)
+  res_at = lambda node, e_: rd_sel.expand(node, e_)[0]
+  # the narrowing need not dominate the reset syntactically: it must lie on every path to it on which a subset is given
+  nn_before = nn in dom[rn] or g.path_avoiding(g.entry, lambda n_: n_ is rn, lambda n_: n_ is nn,
+                                               cfgmod.edge_filter_under(g, {geos: 'notnone', indices: True}, resolve_at=res_at, extra=cfgmod.no_exc)) is None
+  rep.check(nn_before, 'R3/selection', 'positional labels are taken after narrowing to the subset', f.qualname, norm(rn.ast),
             'reset_index() is not preceded by the narrowing to the subset on every path: indices refer to positions in the full table, not in the given order',
             f.loc(rn.ast))
   rep.check('drop=True' not in norm(rn.ast), 'R3/selection', 'reset_index keeps a fresh 0..n-1 index', f.qualname, norm(rn.ast), '', f.loc(rn.ast), nontrivial=False)
   # under facts: geos is None & indices -> raise ValueError ; geos not None & indices -> reset ; geos not None -> narrow
+  rd_sel = dataflow.Reaching(g)
+  res_at = lambda node, e_: rd_sel.expand(node, e_)[0]
+
   def outcome(facts):
-    ok = cfgmod.edge_filter_under(g, facts, extra=cfgmod.no_exc)
+    ok = cfgmod.edge_filter_under(g, facts, resolve_at=res_at, extra=cfgmod.no_exc)
     reach = g.reachable(g.entry, ok)
     return reach
+
+  def open_tests(facts, reach):
+    """Tests on the reachable part that read the arguments but are not decided under the facts: the case split the rule
+    relies on is incomplete there."""
+    out = []
+    for n in reach:
+      if n.kind != 'test':
+        continue
+      ex_ = res_at(n, n.expr)
+      names_ = {x.id for x in ast.walk(ex_) if isinstance(x, ast.Name)}
+      if names_ & {k for k in facts} and cfgmod.decide_test(n.expr, facts, lambda nm, n=n: res_at(n, nm)) is None:
+        out.append(norm(n.expr)[:50])
+    return out
   r1 = outcome({geos: 'none', indices: True})
-  rep.check(g.exit not in r1 and any(n.kind == 'raisestmt' for n in r1), 'R3/selection', 'index mode without a subset raises',
-            f.qualname, 'indices=True, geos=None', 'index mode without a subset does not raise on every path', f.loc())
+  ok_r1 = g.exit not in r1 and any(n.kind == 'raisestmt' for n in r1)
+  op1 = open_tests({geos: 'none', indices: True}, r1)
+  rep.check3(True if ok_r1 else (None if op1 else False), 'R3/selection', 'index mode without a subset raises',
+             f.qualname, 'indices=True, geos=None', 'index mode without a subset does not raise on every path', f.loc(),
+             why_open='the test `%s` is not decided for geos=None, indices=True' % (op1[0] if op1 else ''))
   for n in r1:
     if n.kind == 'raisestmt':
       exn = norm(n.ast.exc.func) if isinstance(n.ast.exc, ast.Call) else norm(n.ast.exc)
@@ -383,15 +407,20 @@ def r3_selection(repo, rep):
   r2 = outcome({geos: 'notnone', indices: True})
   rets = [n for n in r2 if n.kind == 'return']
   okpath = bool(rets) and all(g.path_avoiding(g.entry, lambda n: n.kind == 'return', lambda n: n is rn,
-                                               cfgmod.edge_filter_under(g, {geos: 'notnone', indices: True}, extra=cfgmod.no_exc)) is None for _ in [0])
-  rep.check(okpath, 'R3/selection', 'with a subset and indices=True every path narrows and resets the index', f.qualname,
-            'indices=True, geos given', 'with indices=True some path returns without positional relabelling', f.loc())
+                                               cfgmod.edge_filter_under(g, {geos: 'notnone', indices: True}, resolve_at=res_at, extra=cfgmod.no_exc)) is None for _ in [0])
+  op2 = open_tests({geos: 'notnone', indices: True}, r2)
+  rep.check3(True if okpath else (None if op2 else False), 'R3/selection', 'with a subset and indices=True every path narrows and resets the index', f.qualname,
+             'indices=True, geos given', 'with indices=True some path returns without positional relabelling', f.loc(),
+             why_open='the test `%s` is not decided for a given subset and indices=True' % (op2[0] if op2 else ''))
   okn = g.path_avoiding(g.entry, lambda n: n.kind == 'return', lambda n: n is nn,
-                        cfgmod.edge_filter_under(g, {geos: 'notnone'}, extra=cfgmod.no_exc)) is None
-  rep.check(okn, 'R3/selection', 'with a subset every path narrows to it', f.qualname, 'geos given',
-            'some path with a subset given returns assignments of the un-narrowed table', f.loc())
+                        cfgmod.edge_filter_under(g, {geos: 'notnone'}, resolve_at=res_at, extra=cfgmod.no_exc)) is None
+  op3 = open_tests({geos: 'notnone'}, outcome({geos: 'notnone'}))
+  op3 = [t_ for t_ in op3 if geos in t_ or 'subset' in t_]
+  rep.check3(True if okn else (None if op3 else False), 'R3/selection', 'with a subset every path narrows to it', f.qualname, 'geos given',
+             'some path with a subset given returns assignments of the un-narrowed table', f.loc(),
+             why_open='the test `%s` is not decided for a given subset' % (op3[0] if op3 else ''))
   r3 = g.path_avoiding(g.entry, lambda n: n.kind == 'return', lambda n: n is rn,
-                       cfgmod.edge_filter_under(g, {indices: False}, extra=cfgmod.no_exc))
+                       cfgmod.edge_filter_under(g, {indices: False}, resolve_at=res_at, extra=cfgmod.no_exc))
   rep.check(r3 is not None, 'R3/selection', 'without indices the geo IDs are kept', f.qualname, 'indices=False',
             'ID mode relabels positionally on every path', f.loc())
   # the three sets come from their own columns, compared with 1, and are passed in (c, t, x) order
@@ -415,8 +444,10 @@ def r3_selection(repo, rep):
         continue
       txt = norm(rd.expand(r, args[pname], keep=(geos,))[0])
       cols = set(re.findall(r"'(control|treatment|exclude)'", txt))
-      good = cols == {col} and re.search(r"== 1\b", txt) and '.index[' in txt
-      if not good and not cols:
+      good = cols == {col} and (re.search(r"== 1\b", txt) or re.search(r"\b1 == ", txt) or re.search(r"\.eq\(1\)", txt)) and '.index[' in txt
+      # recognised wrong: another column, or a comparison with another constant / relation on the right column
+      wrong = bool(cols) and (cols != {col} or re.search(r"(==|!=|>=|<=|>|<) (?!1\b)\d", txt) or re.search(r"(!=|>=|<=|>|<) 1\b", txt) or re.search(r"\b\d+ (!=|>=|<=|>|<) ", txt))
+      if not good and not wrong:
         rep.undecided('R3/selection', 'GeoAssignments argument %s' % pname, 'its construction is not visible here: %s' % txt[:60], f.loc(call))
         continue
       rep.check(bool(good), 'R3/selection', 'set %s = labels of rows with %s == 1' % (pname, col), f.qualname,
